@@ -19,7 +19,12 @@ func main() {
 				fmt.Println("fixture:", err)
 				os.Exit(2)
 			}
-			if r := immutwork.Concurrent(f, 8, 60); r != "ok" {
+			twin, err := immutwork.New(ks, []string{"z", "y", "x"}, decoded)
+			if err != nil {
+				fmt.Println("fixture:", err)
+				os.Exit(2)
+			}
+			if r := immutwork.Concurrent(twin, f, 8, 60); r != "ok" {
 				fmt.Println("DIFFERENCE:", r)
 				os.Exit(1)
 			}
